@@ -22,6 +22,10 @@ EVENTS_SALT = "Events-Salt"
 EVENTS_WRITE_INFO = "Events-Write-Encryption-Key"
 EVENTS_READ_INFO = "Events-Read-Encryption-Key"
 
+AUDIO_STREAM_SALT = "AudioStream-Salt"
+AUDIO_STREAM_WRITE_INFO = "AudioStream-Write-Encryption-Key"
+AUDIO_STREAM_READ_INFO = "AudioStream-Read-Encryption-Key"
+
 FEEDBACK_INTERVAL = 2.0  # Seconds
 
 HEADERS = {
@@ -114,13 +118,12 @@ class AirPlayV2(StreamProtocol):
         if self._verifier is None:
             raise exceptions.InvalidStateError("base stream not set up")
 
-        # Ok, so this is not really correct. I believe the shared secret should be used
-        # as base for the shared key, but it's hard to get hold of that here
-        # (abstractions). It doesn't really matter what the key is (could be hardcoded)
-        # as it's merely a security feature. For the sake of it, derive a key from event
-        # parameters, it won't hurt (and the key will be different every time).
+        # The key is handed to the receiver in the (encrypted) setup request, so any key
+        # works as long as it is not used for anything else: derive one with parameters
+        # of its own. It must not be one of the event channel keys, as the receiver
+        # encrypts its event channel requests with that key using the same nonces.
         out_key, _ = self._verifier.encryption_keys(
-            EVENTS_SALT, EVENTS_WRITE_INFO, EVENTS_READ_INFO
+            AUDIO_STREAM_SALT, AUDIO_STREAM_WRITE_INFO, AUDIO_STREAM_READ_INFO
         )
         shared_secret = out_key[0:32]
 
